@@ -263,6 +263,11 @@ def check_custom(ctx, lib):
     ctx.attempt("check_arity", check_arity, ctx, lib)
     ctx.attempt("check_positions", check_positions, ctx, lib)
     ctx.attempt("check_is_valid", check_is_valid, ctx, lib)
+    # is_valid decides through Variable's kind predicates and accessors (is_boolean, is_number, as_array, ..): their table per
+    # kind of value (shared with C06 / C10)
+    from ..leaf import check_accessors
+    n_acc = check_accessors(ctx, lib, "accessor-table")
+    ctx.floor("accessor-table", n_acc, 100, "accessor/predicate decision paths walked")
     # a call on the right of a pipe / dot is reached whatever the left side produced (no shortcut): Subexpr row (shared with C01)
     from ..interp import Interp
     from . import c01
